@@ -101,6 +101,11 @@ def decide_problem(res, prob, replay_kind="one"):
         col_lh = np.array(lf.get_full_length_likelihoods(), dtype=float)
     except Exception as e:  # noqa: BLE001
         res.evals += 1
+        if prob.get("expm") == "checked" and isinstance(e, ArithmeticError) and "precision" in str(e):
+            # expm="checked" is documented to refuse a rate matrix whose eigendecomposition fails its precision test
+            res.refused += 1
+            res.count("checked-exponentiator-refused")
+            return None
         res.witness(exc_mechanism(f"C02/build-or-evaluate/{fam}", e), error=repr(e)[:300], replay_case=rc)
         return None
     sm = lf.model
@@ -201,7 +206,11 @@ def decide_problem(res, prob, replay_kind="one"):
     # G: transition probabilities are only defined to double-precision *absolute* accuracy (~1e-16); columns whose
     # likelihood is built from entries that small (multiple-hit changes on near-zero branches) inherit a large relative
     # uncertainty. Bound it by monotonicity: every term is non-negative, so P+eps / max(P-eps,0) bracket the value.
-    EPS = 2e-14
+    # The half-width is 2e-14, or twice the largest absolute deviation actually observed between the function's P
+    # matrices and the oracle's when that is larger (61-state non-reversible models through the eigen route reach
+    # ~4e-14), capped at 1e-12: beyond that the deviation is not rounding and the bracket does not absorb it.
+    maxdev = max((float(np.abs(P_lf[k_] - P_or[k_]).max()) for k_ in P_or if k_ in P_lf and P_lf[k_].shape == P_or[k_].shape), default=0.0)
+    EPS = min(1e-12, max(2e-14, 2 * maxdev))
     cols_hi = sum(bprobs[b] * M.prune_columns(tree, leaves, lambda ch, b=b: P_or[(ch["name"], b)] + EPS, wp_expected) for b in range(len(bin_names)))
     cols_lo = sum(bprobs[b] * M.prune_columns(tree, leaves, lambda ch, b=b: np.maximum(P_or[(ch["name"], b)] - EPS, 0.0), wp_expected) for b in range(len(bin_names)))
     res.evals += 1
